@@ -17,12 +17,13 @@ import copy
 import difflib
 import os
 import shutil
-import signal  # noqa: F401
+import signal
 import subprocess
 import sys
 import tempfile
 
 REPO = "/repo"
+VERIF = os.path.dirname(os.path.dirname(os.path.abspath(__file__)))      # a copy of /verif runs its own checks (own .work)
 OUT = "/tmp/mutsurv"
 
 CMP_SWAP = {ast.Lt: ast.LtE, ast.LtE: ast.Lt, ast.Gt: ast.GtE, ast.GtE: ast.Gt, ast.Eq: ast.NotEq, ast.NotEq: ast.Eq,
@@ -133,6 +134,8 @@ def main():
     checks = sys.argv[2].split(",")
     maxn = int(sys.argv[sys.argv.index("--max") + 1]) if "--max" in sys.argv else 10 ** 9
     first = int(sys.argv[sys.argv.index("--from") + 1]) if "--from" in sys.argv else 0
+    # --slice k/n: only the sites whose index is k modulo n (several copies of /verif can share the work)
+    sk, sn = [int(x) for x in sys.argv[sys.argv.index("--slice") + 1].split("/")] if "--slice" in sys.argv else (0, 1)
     limit = int(sys.argv[sys.argv.index("--timeout") + 1]) if "--timeout" in sys.argv else 600
     funcs = set(sys.argv[sys.argv.index("--funcs") + 1].split(",")) if "--funcs" in sys.argv else set()
     if subprocess.run(["git", "-C", REPO, "status", "--short"], capture_output=True, text=True).stdout.strip():
@@ -145,6 +148,9 @@ def main():
     print("%d mutation sites in %s" % (len(ss), rel))
     killed = survived = crashed = same = hung = 0
     tag = rel.replace("/", "_").replace(".py", "")
+    # a polite kill must still remove the scratch worktree (the `finally` below)
+    signal.signal(signal.SIGTERM, lambda *a: sys.exit(143))
+    signal.signal(signal.SIGHUP, lambda *a: sys.exit(129))
     scratch = scratch_worktree()
     path = os.path.join(scratch, rel)
     env = dict(os.environ, VERIF_REPO=scratch)
@@ -158,7 +164,7 @@ def main():
         return
     try:
         for k, (kind, p) in enumerate(ss[:maxn]):
-            if k < first:
+            if k < first or k % sn != sk:
                 continue
             try:
                 new = ast.unparse(mutate(tree, kind, p))
@@ -174,7 +180,7 @@ def main():
             open(path, "w").write(new)
             verdict = "survived"
             for c in checks:
-                pr = subprocess.Popen(["./check", c], cwd="/verif", stdout=subprocess.DEVNULL, stderr=subprocess.DEVNULL, env=env, start_new_session=True)
+                pr = subprocess.Popen(["./check", c], cwd=VERIF, stdout=subprocess.DEVNULL, stderr=subprocess.DEVNULL, env=env, start_new_session=True)
                 try:
                     pr.wait(timeout=limit)
                 except subprocess.TimeoutExpired:
